@@ -37,7 +37,7 @@ m = {
     "setup_cmd": "cd /verif/govc && GOFLAGS=-mod=mod GOPROXY=off GOSUMDB=off GOTOOLCHAIN=local go build -o /verif/bin/govc ./cmd/govc",
     "hooks": {
         "guard": "verif",
-        "enable": "-tags verif (govc loads /repo with this tag; the guarded files contain comments only)",
+        "enable": "-tags verif: govc loads /repo with this tag; the two contracts_verif.go files contain comments only; verifhook_verif.go makes the scheduling hook verifYield (one call after Accept in Run, a no-op in verifhook_noverif.go otherwise) settable by tests, used by the reproduction of the C12 known finding",
         "baseline_off_cmd": "cd /repo && go test -mod=mod -vet=off -count=1 -timeout 25m ./...",
         "source_commits": HOOK_COMMITS,
         "add_only": True,
